@@ -448,7 +448,7 @@ async def _dl_main(loop, case: dict, tmp: str):
             # monitor: the offset on the wire is the size of the local file
             if got_offset != size_before:
                 V('C04-wrong-offset', f'attempt {ai}: offset {got_offset} sent, local file holds {size_before} bytes '
-                  f'(bytes_transfered was {tr.bytes_transfered if got_offset != tr.bytes_transfered else "re-set to it"})',
+                  f'(bytes_transfered = {tr.bytes_transfered})',
                   observed=got_offset, required=size_before)
         if att.get('cutinit'):
             lines.append(f'begincut {ann}')
@@ -665,12 +665,13 @@ class _GateLimiter:
         return getattr(self.real, name)
 
 
-def _ul_snapshot(tr, off, lw, gate) -> str:
+def _ul_snapshot(tr, off, lw, gate, net=None) -> str:
     st = _state_name(tr)
     if st == 'UPLOADING' and gate is not None and not gate.waiting:
         st = 'UPLOADING-EOFWAIT'
     sent = bytes(lw.sent[4:]) if lw is not None else b''
-    return f'{st} off={off} bt={tr.bytes_transfered} sent={len(sent)} hs={fnv(sent)}'
+    puf = sum(1 for m in (net.peer_msgs if net is not None else []) if type(m).__qualname__.startswith('PeerUploadFailed'))
+    return f'{st} off={off} bt={tr.bytes_transfered} sent={len(sent)} hs={fnv(sent)} puf={puf}'
 
 
 async def _ul_main(loop, case: dict, tmp: str):
@@ -690,7 +691,7 @@ async def _ul_main(loop, case: dict, tmp: str):
     fnet = fakenet.FakeNet()
     obs, lines, vs = [], ['ul ' + enc_pieces([(mul, add, 0, N)])], []
     off, lw, gate = 0, None, None
-    obs.append(_ul_snapshot(tr, off, lw, gate))
+    obs.append(_ul_snapshot(tr, off, lw, gate, net))
 
     def V(sig, what, **kw):
         vs.append(Violation(sig, what, case, **kw))
@@ -714,7 +715,7 @@ async def _ul_main(loop, case: dict, tmp: str):
             # the uploader has sent the ticket and waits for the offset, which trickles in
             await _feed_split(rw, struct.pack('<Q', off), hs)
         lines.append(f"ubegin {off} {1 if att.get('lim') else 0}")
-        obs.append(_ul_snapshot(tr, off, lw, gate))
+        obs.append(_ul_snapshot(tr, off, lw, gate, net))
         if _state_name(tr) == 'INITIALIZING' or (tr.is_processing() and _task_idle(tr)):
             # monitor: all 8 offset bytes were delivered, nothing failed — the upload must be under way
             exc = task.exception() if task.done() and not task.cancelled() else None
@@ -733,7 +734,7 @@ async def _ul_main(loop, case: dict, tmp: str):
         flags = {'early': False}
 
         def note():
-            obs.append(_ul_snapshot(tr, off, lw, gate))
+            obs.append(_ul_snapshot(tr, off, lw, gate, net))
             if _state_name(tr) == 'COMPLETE' and not (peer['closed'] or peer['reset']):
                 flags['early'] = True
 
@@ -756,8 +757,8 @@ async def _ul_main(loop, case: dict, tmp: str):
             else:
                 lines.append('chunk')               # end of file found → waits for the peer's close …
                 if peer['closed'] or peer['reset']:
-                    obs.append(None)                # … which is there already
-                    lines.append('closed')
+                    obs.append(None)                # … which is there already (or the connection is broken)
+                    lines.append('closed' if peer['closed'] else 'rerr')
                 note()
 
         async def peer_ends(how: str):
@@ -769,7 +770,7 @@ async def _ul_main(loop, case: dict, tmp: str):
                     rw.reset()
                     peer['reset'] = True
             await settle()
-            lines.append('closed')
+            lines.append('closed' if peer['closed'] else 'rerr')
             note()
 
         for op in att['ops']:
@@ -795,6 +796,10 @@ async def _ul_main(loop, case: dict, tmp: str):
             if completed_before_close:
                 V('C04-upload-complete-early', f'attempt {ai}: upload COMPLETE while the peer had not closed the connection',
                   observed='COMPLETE before close', required='COMPLETE only after the peer closed')
+            elif peer['reset']:
+                V('C04-upload-complete-early', f'attempt {ai}: upload COMPLETE although the connection was reset — the '
+                  'peer never closed it, nobody knows what it received (and the downloader is not told to ask again)',
+                  observed='COMPLETE after a reset', required='FAILED + PeerUploadFailed')
         n_chunks = sum(1 for o in att['ops'] if o == 'chunk')
         chunk = 128 if att.get('lim') else 8192
         clean = all(o in ('chunk', 'close') for o in att['ops']) and 'close' in att['ops'] and \
@@ -1155,6 +1160,9 @@ WITNESSES = [
      {'kind': 'dl', 'flen': 10, 'mul': 1, 'add': 0, 'pre': None, 'gen': 'witness', 'monitor_only': True,
       'name': 'music\\a\x00b.bin',
       'attempts': [{'ann': 10, 'lim': 0, 'mode': 'honest', 'segs': [[10, False]], 'end': 'stall'}]}),
+    ('C04-pair-not-finished',                    # the downloader learns of the break before the uploader
+     {'kind': 'pair', 'flen': 20000, 'cuts': [5000], 'rst_first': 'down', 'rst_delay': 1.0, 'mul': 1, 'add': 0,
+      'lim_up': 0, 'lim_down': 0, 'lat_p': 0.02, 'lat_f': 0.02, 'hs_split': None, 'gen': 'witness'}),
     ('C04-complete-but-differs',                 # two uploaders, same ticket (fixed d97c791)
      {'kind': 'pair', 'flen': 20000, 'mul': 1, 'add': 0, 'second': [{'flen': 20000, 'mul': 3, 'add': 9}], 'stagger': 0,
       'lat_f_by': {'up': 0.5}, 'gen': 'witness'}),
